@@ -215,6 +215,11 @@ func (m *mux) loop() {
 		err = m.onePacket()
 	}
 
+	// Close the transport before forgetting the channels: an OpenChannel that
+	// registers its channel after dropAll must fail to send its open message,
+	// or it would wait forever for a response that nobody can deliver.
+	m.conn.Close()
+
 	for _, ch := range m.chanList.dropAll() {
 		ch.close()
 	}
@@ -222,8 +227,6 @@ func (m *mux) loop() {
 	close(m.incomingChannels)
 	close(m.incomingRequests)
 	close(m.globalResponses)
-
-	m.conn.Close()
 
 	m.errCond.L.Lock()
 	m.err = err
